@@ -171,6 +171,12 @@ struct Cx {
     builders: HashMap<u8, Arc<LevenshteinAutomatonBuilder>>,
     stream_checked: u64,
     suggest_cases: u64,
+    /// `A` cases (the real fst + levenshtein_automata stream against C15Automaton.la_search, item by item)
+    automaton_cases: u64,
+    automaton_curated: u64,
+    automaton_curated_max: u64,
+    /// Vec::sort_by_key stability, observed on std itself with the keys of every suggestion case
+    sort_stable_checked: u64,
 }
 
 impl Cx {
@@ -722,7 +728,16 @@ fn suggest_case(cx: &mut Cx, b: &Built, query: &Query, q: &[char], ql_string: &[
             if a != f {
                 cx.rep.fail("suggest_not_fuzzy", format!("{who}: the suggestions {:?} for {:?} (d={}, k={}) are not the words of fuzzy_match's result {:?}", show(&sug), query.q, query.d, query.k, show(&r.iter().map(|x| x.0.clone()).collect::<Vec<_>>())), fail_input.clone());
             } else {
-                // Vec::sort_by_key is stable: one possible outcome
+                // Vec::sort_by_key is stable: one possible outcome.  The hypothesis is observed on std itself: the keys of
+                // this case, tagged with their positions, sorted by key alone, must keep equal keys in position order
+                {
+                    let mut tagged: Vec<(i64, usize)> = r.iter().enumerate().map(|(i, x)| (score(q, &x.0, x.1, &x.2), i)).collect();
+                    tagged.sort_by_key(|t| t.0);
+                    cx.sort_stable_checked += 1;
+                    if tagged.windows(2).any(|w| w[0].0 > w[1].0 || (w[0].0 == w[1].0 && w[0].1 > w[1].1)) {
+                        cx.rep.fail("sort_by_key_unstable", format!("Vec::sort_by_key reordered equal keys: {tagged:?}"), fail_input.clone());
+                    }
+                }
                 let mut want: Vec<&(Vec<char>, u8, WordMetadata)> = r.iter().collect();
                 want.sort_by_key(|x| score(q, &x.0, x.1, &x.2));
                 let want: Vec<Vec<char>> = want.into_iter().map(|x| x.0.clone()).collect();
@@ -776,6 +791,20 @@ fn stream_monitor(cx: &mut Cx, b: &Built, x: &[char], d: u8, fail_input: &Value)
     });
     let want: Vec<(u64, u8)> = entry.1.iter().enumerate().filter_map(|(i, w)| lev_within(x, w, d as usize).map(|e| (i as u64, e as u8))).collect();
     cx.stream_checked += 1;
+    // correspondence: the same stream from the extracted automaton product (C15Automaton.la_search over the model's
+    // index of this dictionary), item by item; the 130 000-word curated index for the first few strings only
+    if !b.is_curated || cx.automaton_curated < cx.automaton_curated_max {
+        if b.is_curated {
+            cx.automaton_curated += 1;
+        }
+        cx.automaton_cases += 1;
+        let line = match &got {
+            Ok(g) => format!("A {}", g.iter().map(|(i, e)| format!("{i}:{e}")).collect::<Vec<_>>().join(" ")).trim().to_string(),
+            Err(m) => format!("P {}", panic_class(m)),
+        };
+        cx.rep.case(&format!("A {} {} | {}", b.gname, d, cps(x)), &line);
+        cx.rep.count(&format!("automaton:stream-items:{}", bucket(got.as_ref().map(|g| g.len()).unwrap_or(0))));
+    }
     match got {
         Ok(g) if g == want => {}
         Ok(g) => {
@@ -844,6 +873,23 @@ fn fuzzy_oracle(cx: &mut Cx, b: &Built, query: &Query, qn: &[char], ql_chars: &[
                     break;
                 }
             }
+        }
+    }
+    // FstDictionary, aligned streams (every word is within the bound of the normalised query and of its String::to_lowercase,
+    // or of neither): each result carries the SMALLER of its two distances (C15_fst_merged_aligned, C15_fst_fuzzy_aligned_min)
+    if b.is_fst && !b.is_merged {
+        let aligned = ql_string == qn || b.words.iter().all(|w| lev_within(qn, w, d).is_some() == lev_within(ql_string, w, d).is_some());
+        if aligned {
+            cx.rep.count(if ql_string == qn { "fuzzy:aligned-min-checked:lower-case-query" } else { "fuzzy:aligned-min-checked:case-differs" });
+            for (w, dist, _) in r {
+                let want = lev(qn, w).min(lev(ql_string, w));
+                if *dist as usize != want {
+                    cx.rep.fail("fuzzy_not_min", format!("{who}: the two automaton streams list the same words, yet result {:?} for {:?} reports distance {dist}, not the smaller of its distances to the query and its lower-case form ({want})", w.iter().collect::<String>(), query.q), fail_input.clone());
+                    break;
+                }
+            }
+        } else {
+            cx.rep.count("fuzzy:streams-not-aligned");
         }
     }
     // for lower-case queries no word within the bound is missed
@@ -1057,6 +1103,10 @@ pub fn run(a: &Args, corpus: &[Value]) {
         builders: HashMap::new(),
         stream_checked: 0,
         suggest_cases: 0,
+        automaton_cases: 0,
+        automaton_curated: 0,
+        automaton_curated_max: a.scale(8, 60) as u64,
+        sort_stable_checked: 0,
     };
     cx.rep.rule = "scenarios = named dictionaries built through the public API (MutableDictionary::extend_words, FstDictionary::new, FstDictionary::from(Mutable), MergedDictionary incl. nested / duplicated / empty children, the two curated dictionaries) x queries (dictionary words, re-cased, 1-3 random edits, typographic apostrophes, non-ASCII incl. length-changing lower-casing, empty, long up to 300) x max_distance 0..3 (4, thorough also 5, on small dictionaries; 255 for the distance function with strings up to 300 characters) x max_results {0,1,2,3,5,10,100,1000}; every query asks all exact-trait methods (char and _str variants, get_word_from_id) and fuzzy_match/_str on every back-end of the scenario; per scenario word_count / words_iter of merged dictionaries and == between them. non-trivial = distinct (scenario, query) where some back-end contains the word or returns >= 1 fuzzy result".into();
     // the Unicode data of ASCII is declared up front
@@ -1384,7 +1434,11 @@ fn exhaustive(cx: &mut Cx) {
 fn finish(mut cx: Cx) {
     cx.rep.monitor("fst_stream_contract(fuzzy cases on an FstDictionary compared with the model under the contract)", cx.fst_cases);
     cx.rep.monitor("fst_stream_contract_direct(streams of our own fst::Map + levenshtein DFA over the dictionary's sorted words compared with brute force)", cx.stream_checked);
+    cx.rep.monitor("fst_stream_is_automaton_product(A cases: real fst + levenshtein_automata stream vs extracted la_search, item by item)", cx.automaton_cases);
+    cx.rep.monitor("vec_sort_by_key_stable(std, on the score keys of every suggestion case)", cx.sort_stable_checked);
     cx.rep.extra.insert("suggest_cases".into(), json!(cx.suggest_cases));
+    cx.rep.extra.insert("automaton_cases".into(), json!(cx.automaton_cases));
+    cx.rep.extra.insert("automaton_cases_on_curated_index".into(), json!(cx.automaton_curated));
     cx.rep.extra.insert("distinct_metadata_values".into(), json!(cx.meta_tags.len()));
     cx.rep.extra.insert("distinct_characters_declared".into(), json!(cx.declared.len()));
     let _ = BTreeSet::<u8>::new();
